@@ -95,6 +95,17 @@ def gen_history(ctx, rng):
             del pending[cid]
         c = conds[cid - 1]
         ops.append(dict(op=kind, cid=cid, fresh=gen_rows(rng, c["n"], dim_of(c["space"]))))
+        built = [o["cid"] for o in ops if o["op"] == "c"]
+        r = rng.random()
+        if built and r < 0.08:
+            # a training is started with some of the conditions built so far: the Solver's start-up hook moves
+            # their static data to the device (op "s"); sometimes a real one-step fit follows (op "f": every
+            # train / val condition is evaluated once on the points laid out for it here)
+            part = rng.sample(built, rng.randint(1, len(built)))
+            fit = r < 0.007
+            nval = rng.randint(0, len(part) - 1) if fit else 0
+            ops.append(dict(op="f" if fit else "s", cids=part, val=part[len(part) - nval:] if nval else [],
+                            fresh={str(k): gen_rows(rng, conds[k - 1]["n"], dim_of(conds[k - 1]["space"])) for k in part}))
     return dict(kind="history", space=space, dicts=dicts, conds=conds, ops=ops)
 
 
@@ -140,6 +151,21 @@ def run_history(case, only=None):
     objs = {}            # cid -> (model, residual function, inner sampler) for object sharing between conditions
     outs = []
     for op in case["ops"]:
+        if op["op"] in ("s", "f"):
+            part = [k for k in op["cids"] if only is None or k == only]
+            if not part:
+                continue
+            try:
+                for k in part:
+                    state[k][1].next_rows = prow(op["fresh"][str(k)])
+                cc.training_start([state[k][0] for k in part if k not in op["val"]],
+                                  [state[k][0] for k in part if k in op["val"]], fit=op["op"] == "f")
+                if op["op"] == "f":
+                    outs += [(k, "~") for k in part]
+            except Exception as e:  # noqa
+                outs.append((part[0], c04.classify_exc(e)))
+            del sink[:]
+            continue
         if only is not None and op["cid"] != only:
             continue
         c = case["conds"][op["cid"] - 1]
@@ -206,6 +232,11 @@ def line_history(case, mode="new"):
                          "1" if c["static"] else "0", tok_table(prow(fresh))])
     ops = []
     for op in case["ops"]:
+        if op["op"] == "s":
+            continue            # moving static data to the device it is on changes nothing in the model
+        if op["op"] == "f":
+            ops += [f"e {k} {tok_table(prow(op['fresh'][str(k)]))}" for k in op["cids"]]
+            continue
         c = case["conds"][op["cid"] - 1]
         ops.append(cond_tok(c, op["fresh"]) if op["op"] == "c" else f"e {op['cid']} {tok_table(prow(op['fresh']))}")
     dicts = lst(case["dicts"], lambda d: lst(d, lambda f: f"{f['name']} {'wrapped' if f.get('wrap') else 'raw'} {fn_tok(f)}"))
@@ -215,6 +246,9 @@ def line_history(case, mode="new"):
 def judge_history(rep, case, res, alone, reply):
     rep.count(f"history:conditions={len(case['conds'])}")
     rep.count(f"history:ops={len(case['ops'])}")
+    for o in case["ops"]:
+        if o["op"] in ("s", "f"):
+            rep.count("history:training-start-hook" if o["op"] == "s" else "history:one-step-fit" + ("+validation" if o["val"] else ""))
     shared = {}
     for c in case["conds"]:
         shared.setdefault(c["dref"], []).append(c)
@@ -248,7 +282,7 @@ def judge_history(rep, case, res, alone, reply):
         if c["static"] and len(set(losses)) > 1:
             rep.fail(f"static condition {cid} returned different losses on repeated evaluation: {losses}", case)
         for o in mine:
-            if isinstance(o, str) and o != "-":
+            if isinstance(o, str) and o not in ("-", "~"):
                 rep.fail(f"condition {cid} raised: {o}", case)
     for i, (d, spec) in enumerate(zip(res["dicts"], case["dicts"])):
         if d["keys"] != [f["name"] for f in spec] or not d["same_objects"]:
@@ -266,7 +300,7 @@ def judge_history(rep, case, res, alone, reply):
         rep.disagree("history: number of outputs", case, res["outs"], reply)
         return
     for (cid, o), m in zip(res["outs"], mo):
-        ok = (o == "-" and m == "-") or (isinstance(o, float) and not m.startswith("err") and m not in ("-", "none")
+        ok = (o == "~") or (o == "-" and m == "-") or (isinstance(o, float) and not m.startswith("err") and m not in ("-", "none")
                                          and close(o, float(F(m)), 1e-9, 1e-12)) or (isinstance(o, str) and o == m)
         if not ok:
             rep.disagree("history outputs: drivers/C14.lean `run new` vs the real conditions", case, res["outs"], reply)
@@ -321,7 +355,7 @@ def gen_cases(ctx):
 def key_of(case):
     c = dict(case)
     if c["kind"] == "history":
-        c["ops"] = [(o["op"], o["cid"]) for o in c["ops"]]
+        c["ops"] = [(o["op"], o.get("cid", o.get("cids"))) for o in c["ops"]]
         return c
     return c04.key_of(c)
 
@@ -364,7 +398,7 @@ def run(ctx, rep, cases=None):
             shared[k["dref"]] = shared.get(k["dref"], 0) + 1
         rep.case(key_of(c), max(shared.values()) >= 2,
                  sample=dict(conditions=[dict(cid=k["cid"], dict=k["dref"], static=k["static"], cls=k["cls"]) for k in c["conds"]],
-                             ops=[(o["op"], o["cid"]) for o in c["ops"]], implementation=r["outs"], model=m), kind="history")
+                             ops=[(o["op"], o.get("cid", o.get("cids"))) for o in c["ops"]], implementation=r["outs"], model=m), kind="history")
         judge_history(rep, c, r, al, m)
     per_case = {}
     for (i, j), rp in zip(owner, preplies):
